@@ -42,6 +42,27 @@ impl MeleeString {
 //@before match SHIFT_JIS
 		proof { lemma_nul_len(s@, first_null as int); }
 //@end
+// normalisation: the property's character map (fix_char is proved equal to it for EVERY char by the Kani harness c19_fix_char)
+//@fn src/game/shift_jis.rs | impl MeleeString | to_normalized | ret=res | sub=/self.0.clone().chars().map(fix_char).collect::<String>()/string_map_fix_char(&self.0)/
+	ensures res@ == self.0@.map_values(|c: char| fix_char_spec(c)) /*[C19.normalise_maps_each_char_and_nothing_else]*/,
+//@end
+}
+pub open spec fn fix_char_spec(c: char) -> char {
+	let u = c as u32;
+	if 0xff01 <= u <= 0xff5e { ((u - 0xfee0) as u8) as char } else if u == 0x3000 { ' ' } else if u == 0x2019 { '\'' } else if u == 0x201d { '"' } else { c }
+}
+// `s.clone().chars().map(fix_char).collect::<String>()`: std yields the scalar values in order, applies the function to each,
+// and concatenates.  The extraction PINS this exact expression: any other body text is UNDECIDED and is decided natively (c19 search).
+#[verifier::external_body]
+pub fn string_map_fix_char(s: &String) -> (r: String) ensures r@ == s@.map_values(|c: char| fix_char_spec(c)) { unimplemented!() }
+// idempotence of the map (so normalising twice equals normalising once)
+pub proof fn lemma_fix_char_idempotent(c: char)
+	ensures fix_char_spec(fix_char_spec(c)) == fix_char_spec(c) /*[C19.normalise_idempotent]*/
+{
+	let u = c as u32;
+	if 0xff01 <= u <= 0xff5e {
+		assert(0x21 <= u - 0xfee0 <= 0x7e);
+	}
 }
 
 // ---------------- game types ----------------
